@@ -11,20 +11,17 @@ from . import runtime as rtm
 from . import tlc
 
 
-def export_instance(prog, run_index=0, cancel=False, collab=None):
+def export_instance(prog, run_index=0, cancel=False, collab=None, overlap=False):
     rt = rtm.Runtime()
     chart, dag, classes = programs.build_chart(prog, rt)
     g = dag.graph
     byid = programs.node_by_id(prog)
     short = rtm.short
     nodes = [short(n) for n in g.nodes]
-    run = prog['runs'][run_index]
     attr = {}
-    plan = {}
-    recreq = {}
-    recfalsy = {}
-    recnone = {}
-    plan_it = {}
+    runs = []
+    for run in prog['runs']:
+        runs.append({'plan': {}, 'plan_it': {}, 'recreq': {}, 'recfalsy': {}, 'recnone': {}})
     for n in g.nodes:
         d = g.nodes[n]
         s = short(n)
@@ -38,11 +35,12 @@ def export_instance(prog, run_index=0, cancel=False, collab=None):
             'excs': list(spec.get('exceptions') or ['Exception']), 'use_default': bool(spec.get('use_default')),
             'mode': spec.get('mode', 'coro') if real else 'coro',
         }
-        plan[s] = [programs.parse_outcome(o) for o in (run['plan'].get(s) or ['ok'])]
-        recreq[s] = int(run['recreq'].get(s, -1))
-        recfalsy[s] = s in run.get('recfalsy', ())
-        recnone[s] = [int(x) for x in run.get('recnone', {}).get(s, [])]
-        plan_it[s] = [[programs.parse_outcome(o) for o in ep] for ep in (run.get('plan_it', {}).get(s) or [])]
+        for rc, run in zip(runs, prog['runs']):
+            rc['plan'][s] = [programs.parse_outcome(o) for o in (run['plan'].get(s) or ['ok'])]
+            rc['recreq'][s] = int(run['recreq'].get(s, -1))
+            rc['recfalsy'][s] = s in run.get('recfalsy', ())
+            rc['recnone'][s] = [int(x) for x in run.get('recnone', {}).get(s, [])]
+            rc['plan_it'][s] = [[programs.parse_outcome(o) for o in ep] for ep in (run.get('plan_it', {}).get(s) or [])]
     succ = {short(n): [short(v) for v in g.successors(n)] for n in g.nodes}
     edge = {}
     for u in g.nodes:
@@ -54,9 +52,9 @@ def export_instance(prog, run_index=0, cancel=False, collab=None):
             edge[short(u)][short(v)] = {'kw': str(kw) if kw is not None else '-', 'sw': bool(ed.get('is_switch')),
                                         'cs': str(cs) if cs is not None else '-'}
     desc = {short(n): [short(x) for x in list(nx.descendants_at_distance(g, n, 1))] for n in g.nodes}
-    return {'name': prog['name'], 'nodes': nodes, 'attr': attr, 'succ': succ, 'edge': edge, 'desc': desc, 'plan': plan,
-            'recreq': recreq, 'recfalsy': recfalsy, 'recnone': recnone, 'plan_it': plan_it, 'input': short(dag.input_node), 'output': short(dag.output_node),
-            'prog': programs.to_tla(prog), 'cancel': bool(cancel),
+    return {'name': prog['name'], 'nodes': nodes, 'attr': attr, 'succ': succ, 'edge': edge, 'desc': desc, 'runs': runs,
+            'input': short(dag.input_node), 'output': short(dag.output_node),
+            'prog': programs.to_tla(prog), 'cancel': bool(cancel), 'overlap': bool(overlap),
             'collab': {'ev': (collab or {}).get('ev', 'sync'), 'save': (collab or {}).get('save', 'sync')}}
 
 
@@ -93,3 +91,25 @@ def check_liveness(inst, workers=2, timeout=1800):
     """C02 as a liveness property: under weak fairness of the loop every behaviour ends the run (no state constraint,
     no VIEW)"""
     return check_instance(inst, cfg=LIVENESS_CFG, workers=workers, extra=(), timeout=timeout)
+
+
+ENGINE2_CFG = '''SPECIFICATION Spec2
+VIEW View2
+INVARIANT SoloOutcome
+INVARIANT NoStuck2
+INVARIANT CleanStarts2
+CHECK_DEADLOCK FALSE
+'''
+
+
+def check_instance2(inst, cfg=ENGINE2_CFG, workers=1, extra=('-continue',), timeout=1800):
+    f = tempfile.NamedTemporaryFile('w', suffix='.json', delete=False)
+    json.dump(inst, f)
+    f.close()
+    try:
+        out, stats = tlc.run_tlc('Engine2', cfg, env={'INSTANCE_FILE': f.name}, workers=workers, extra=extra, timeout=timeout)
+    finally:
+        os.unlink(f.name)
+    stats['ok'] = 'Model checking completed. No error has been found.' in out
+    stats['out'] = out
+    return stats
